@@ -30,11 +30,15 @@ ASSUMPTIONS = ['behavioural equality is observed through parse() on all inputs u
 DEADLINE = {'quick': 1200, 'thorough': 4 * 3600}
 
 G_IMP = 'start: x+ y?\ny: ["b"] "c"\n%import m.x\n'
+G_IMP2 = 'start: x+ z?\n%import m.x\n%import n.z\n'          # two imported files (the second one is edited)
+G_PKG = 'start: x+ k?\n%import m.x\n%import pk.k\n'           # pk.k comes through a FromPackageLoader (PackageResource key)
+N_V = {0: 'z: "c"\n', 1: 'z: "c" "c"\n'}
+PK_V = {0: 'k: "c"\n', 1: 'k: "b" "c"\n'}
 G_PLAIN = 'start: (A | B)+ [C]\nA: "a"\nB: "b"\nC: "c"\n'
 G_OTHER = 'start: (A | B)* C\nA: "a"\nB: "b"\nC: "c"\n'
 M_V = {0: 'x: "a"\n', 1: 'x: "b"\n', 2: 'x: "a" "a"\n'}
 M_SHADOW = 'x: "b" "a"\n'
-GRAMMARS = {'imp': G_IMP, 'plain': G_PLAIN, 'other': G_OTHER, 'plain-cmt': G_PLAIN + '//', 'plain-cmt-kw': G_PLAIN + '//keep_all_tokensTrue'}
+GRAMMARS = {'imp2': G_IMP2, 'pkg': G_PKG, 'imp': G_IMP, 'plain': G_PLAIN, 'other': G_OTHER, 'plain-cmt': G_PLAIN + '//', 'plain-cmt-kw': G_PLAIN + '//keep_all_tokensTrue'}
 OPTS = {'o0': {}, 'keep': {'keep_all_tokens': True}, 'noph': {'maybe_placeholders': False}, 'basic': {'lexer': 'basic'},
         'start-y': {'start': 'y'}, 'prio-none': {'priority': None}}
 INPUTS = list(util.strings('abc', 3))
@@ -57,10 +61,26 @@ class Env:
         self.d1, self.d2 = 'd1', 'd2'
         self.cache = 'the.cache'
         self.set_import(0)
+        self.set_n(0)
+        # a throw-away package next to the scratch directories, imported through FromPackageLoader
+        self.pkg = 'lmcpkg_%s' % os.path.basename(root).replace('-', '_').replace('.', '_')
+        os.makedirs(os.path.join(root, self.pkg))
+        with open(os.path.join(root, self.pkg, '__init__.py'), 'w') as f:
+            f.write('')
+        self.set_pkg(0)
+        sys.path.insert(0, root)
 
     def set_import(self, v):
         with open(os.path.join(self.d2, 'm.lark'), 'w') as f:
             f.write(M_V[v])
+
+    def set_n(self, v):
+        with open(os.path.join(self.d2, 'n.lark'), 'w') as f:
+            f.write(N_V[v])
+
+    def set_pkg(self, v):
+        with open(os.path.join(self.root, self.pkg, 'pk.lark'), 'w') as f:
+            f.write(PK_V[v])
 
     def shadow(self, on):
         p = os.path.join(self.d1, 'm.lark')
@@ -71,12 +91,19 @@ class Env:
             os.remove(p)
 
     def close(self):
+        if self.root in sys.path:
+            sys.path.remove(self.root)
+        sys.modules.pop(self.pkg, None)
         os.chdir(self.cwd)
         shutil.rmtree(self.root, ignore_errors=True)
 
 
 def construct(env, g, o, cached):
-    opts = dict(parser='lalr', import_paths=[env.d1, env.d2], **OPTS[o])
+    paths = [env.d1, env.d2]
+    if g == 'pkg':
+        from lark.load_grammar import FromPackageLoader
+        paths = paths + [FromPackageLoader(env.pkg, ('',))]
+    opts = dict(parser='lalr', import_paths=paths, **OPTS[o])
     # keep_all_tokens must be the *first* keyword for the key-concatenation corner: pass options in a fixed order
     if 'keep_all_tokens' in opts:
         opts = dict(keep_all_tokens=opts.pop('keep_all_tokens'), **opts)
@@ -212,6 +239,7 @@ def run_faults(g, o, Bb64, kind, lo, hi, masks, res, only=None):
 def events(tier):
     ev = [('build', g, o) for g, o in (('imp', 'o0'), ('imp', 'keep'), ('imp', 'noph'), ('plain', 'o0'), ('plain', 'keep'), ('plain', 'noph'),
                                       ('plain', 'prio-none'), ('other', 'o0'), ('plain-cmt', 'keep'), ('plain-cmt-kw', 'o0'), ('imp', 'start-y'))]
+    ev += [('build', 'imp2', 'o0'), ('build', 'pkg', 'o0'), ('edit-n', 1), ('edit-pkg', 1)]
     ev += [('edit', 1), ('edit', 2), ('edit', 0), ('shadow', True), ('version', '9.9.9'), ('pyversion', (2, 7)), ('truncate',), ('garbage',)]
     return ev
 
@@ -233,6 +261,10 @@ def run_history(seq, res, only=None):
                     return
             elif ev[0] == 'edit':
                 env.set_import(ev[1])
+            elif ev[0] == 'edit-n':
+                env.set_n(ev[1])
+            elif ev[0] == 'edit-pkg':
+                env.set_pkg(ev[1])
             elif ev[0] == 'shadow':
                 env.shadow(True)
                 shadowed = True
